@@ -76,12 +76,25 @@ theorem frame_applyFactors : ∀ (l : List Cell) (es : List Rat) (i : Nat),
 
 /-! ### `regionMax` -/
 
+theorem rat_le_max_left (a b : Rat) : a ≤ max a b := by
+  rw [Rat.max_def]; split
+  · assumption
+  · exact Rat.le_refl
+
+theorem rat_le_max_right (a b : Rat) : b ≤ max a b := by
+  rw [Rat.max_def]; split
+  · exact Rat.le_refl
+  · rename_i h; exact Rat.le_of_lt (Rat.not_le.mp h)
+
+theorem rat_max_cases (a b : Rat) : max a b = a ∨ max a b = b := by
+  rw [Rat.max_def]; split <;> simp
+
 theorem regionMax_ge_acc (place : Rect) : ∀ (m : List (Rect × Rat)) (acc : Rat), acc ≤ regionMax place acc m
-  | [], acc => by simp [regionMax]; exact Rat.le_refl
+  | [], acc => by simp [regionMax]
   | (r, e) :: rest, acc => by
     simp only [regionMax]
     split
-    · exact Rat.le_trans (Rat.le_max_left ..) (regionMax_ge_acc place rest _)
+    · exact Rat.le_trans (rat_le_max_left _ _) (regionMax_ge_acc place rest _)
     · exact regionMax_ge_acc place rest _
 
 theorem regionMax_ge_mem (place : Rect) : ∀ (m : List (Rect × Rat)) (acc : Rat) (r : Rect) (e : Rat),
@@ -92,7 +105,7 @@ theorem regionMax_ge_mem (place : Rect) : ∀ (m : List (Rect × Rat)) (acc : Ra
     rcases List.mem_cons.mp h with heq | h'
     · obtain ⟨rfl, rfl⟩ := Prod.mk.inj heq
       rw [if_pos hi]
-      exact Rat.le_trans (Rat.le_max_right ..) (regionMax_ge_acc place rest _)
+      exact Rat.le_trans (rat_le_max_right _ _) (regionMax_ge_acc place rest _)
     · exact regionMax_ge_mem place rest _ r e h' hi
 
 theorem regionMax_attained (place : Rect) : ∀ (m : List (Rect × Rat)) (acc : Rat),
@@ -103,9 +116,9 @@ theorem regionMax_attained (place : Rect) : ∀ (m : List (Rect × Rat)) (acc : 
     split
     · rename_i hi
       rcases regionMax_attained place rest (max acc e') with h | ⟨r, e, hm, hri, he⟩
-      · rcases Rat.max_def acc e' ▸ (by split <;> simp : (if acc ≤ e' then e' else acc) = acc ∨ (if acc ≤ e' then e' else acc) = e') with h2 | h2
-        · left; rw [h, Rat.max_def]; exact h2
-        · right; exact ⟨r', e', by simp, hi, by rw [h, Rat.max_def]; exact h2⟩
+      · rcases rat_max_cases acc e' with h2 | h2
+        · left; rw [h, h2]
+        · right; exact ⟨r', e', by simp, hi, by rw [h, h2]⟩
       · right; exact ⟨r, e, by simp [hm], hri, he⟩
     · rcases regionMax_attained place rest acc with h | ⟨r, e, hm, hri, he⟩
       · left; exact h
@@ -120,6 +133,273 @@ theorem mem_expansionMap (cmap : List (Rect × Rat)) (fp pf : Rat) (r : Rect) (e
     exact ⟨cg, hm, hc, rfl⟩
   · rintro ⟨cg, hm, hc, rfl⟩
     exact ⟨(r, cg), ⟨hm, hc⟩, rfl⟩
+
+/-! ### the carried missing area -/
+
+theorem carry_spec (h : Int) (m1 : Rat) (hh : 0 < h) (hm : 0 ≤ m1) :
+    0 ≤ carryCount h m1 ∧ 0 ≤ m1 - (carryCount h m1 : Rat) * (h : Rat) ∧
+    m1 - (carryCount h m1 : Rat) * (h : Rat) < (h : Rat) := by
+  have hq : (0 : Rat) < (h : Rat) := Rat.intCast_pos.mpr hh
+  unfold carryCount
+  split
+  · rename_i hlt
+    refine ⟨Int.le_refl _, ?_, ?_⟩ <;> simp <;> grind
+  · rename_i hge
+    have hne : (h : Rat) ≠ 0 := by grind
+    have h1 : ((m1 / (h : Rat)).floor : Rat) ≤ m1 / (h : Rat) := Rat.floor_le _
+    have h2 := Rat.lt_floor_add_one (m1 / (h : Rat))
+    have h3 : ((m1 / (h : Rat)).floor : Rat) * (h : Rat) ≤ m1 := by
+      have := Rat.mul_le_mul_of_nonneg_right h1 (Rat.le_of_lt hq)
+      rwa [Rat.div_mul_cancel hne] at this
+    have h4 : m1 < (((m1 / (h : Rat)).floor + 1 : Int) : Rat) * (h : Rat) := by
+      have := Rat.mul_lt_mul_of_pos_right h2 hq
+      rwa [Rat.div_mul_cancel hne] at this
+    have h5 : (0 : Rat) ≤ m1 / (h : Rat) := by
+      rw [Rat.div_def]; exact Rat.mul_nonneg hm (Rat.le_of_lt (Rat.inv_pos.mpr hq))
+    refine ⟨Rat.le_floor_iff.mpr (by simpa using h5), by grind, ?_⟩
+    rw [Rat.intCast_add] at h4
+    grind
+
+theorem step_identity (f cap m : Rat) (cl : Cell) :
+    (cl.h : Rat) * (newWidth f cap m cl : Rat) + newMissing f cap m cl = m + (cl.h : Rat) * fracW f cap cl := by
+  simp only [newWidth, newMissing, missingAdd, Rat.intCast_add]
+  grind
+
+theorem active_iff (cl : Cell) : active cl = true ↔ cl.fixed = false ∧ 0 < cl.h ∧ 0 < cl.w := by
+  simp [active, and_assoc]
+
+theorem fracW_le (f cap : Rat) (cl : Cell) : fracW f cap cl ≤ (cl.w : Rat) * f := by
+  unfold fracW; split
+  · rename_i h; exact Rat.le_of_lt h
+  · exact Rat.le_refl
+
+theorem fracW_nonneg (f cap : Rat) (cl : Cell) (hf : 0 ≤ f) (hcap : 0 ≤ cap) (hw : 0 < cl.w) :
+    0 ≤ fracW f cap cl := by
+  unfold fracW; split
+  · exact hcap
+  · exact Rat.mul_nonneg (Rat.le_of_lt (Rat.intCast_pos.mpr hw)) hf
+
+theorem missingAdd_nonneg (f cap m : Rat) (cl : Cell) (hf : 0 ≤ f) (hcap : 0 ≤ cap) (hm : 0 ≤ m)
+    (ha : active cl = true) : 0 ≤ missingAdd f cap m cl := by
+  obtain ⟨_, hh, hw⟩ := (active_iff cl).mp ha
+  have h1 := truncRat_le _ (fracW_nonneg f cap cl hf hcap hw)
+  have h2 : (0 : Rat) ≤ (cl.h : Rat) * (fracW f cap cl - (truncRat (fracW f cap cl) : Rat)) :=
+    Rat.mul_nonneg (Rat.le_of_lt (Rat.intCast_pos.mpr hh)) (by grind)
+  unfold missingAdd
+  grind
+
+/-- after an active cell the carried area is in `[0, h)` -/
+theorem newMissing_bounds (f cap m : Rat) (cl : Cell) (hf : 0 ≤ f) (hcap : 0 ≤ cap) (hm : 0 ≤ m)
+    (ha : active cl = true) : 0 ≤ newMissing f cap m cl ∧ newMissing f cap m cl < (cl.h : Rat) := by
+  obtain ⟨_, hh, _⟩ := (active_iff cl).mp ha
+  have := carry_spec cl.h (missingAdd f cap m cl) hh (missingAdd_nonneg f cap m cl hf hcap hm ha)
+  exact ⟨this.2.1, this.2.2⟩
+
+theorem carryCount_nonneg (f cap m : Rat) (cl : Cell) (hf : 0 ≤ f) (hcap : 0 ≤ cap) (hm : 0 ≤ m)
+    (ha : active cl = true) : 0 ≤ carryCount cl.h (missingAdd f cap m cl) := by
+  obtain ⟨_, hh, _⟩ := (active_iff cl).mp ha
+  exact (carry_spec cl.h (missingAdd f cap m cl) hh (missingAdd_nonneg f cap m cl hf hcap hm ha)).1
+
+theorem stepMissing_nonneg (f cap m : Rat) (cl : Cell) (hf : 0 ≤ f) (hcap : 0 ≤ cap) (hm : 0 ≤ m) :
+    0 ≤ stepMissing f cap m cl := by
+  unfold stepMissing; split
+  · rename_i ha; exact (newMissing_bounds f cap m cl hf hcap hm ha).1
+  · exact hm
+
+/-- `carry_bound`, pointwise: the carried area stays in `[0, H)` for every bound `H` on the active heights -/
+theorem finalMissing_bounds (f cap : Rat) (hf : 0 ≤ f) (hcap : 0 ≤ cap) (H : Int) :
+    ∀ (l : List Cell) (m : Rat), 0 ≤ m → m < (H : Rat) → (∀ cl ∈ l, active cl = true → cl.h ≤ H) →
+      0 ≤ finalMissing f cap m l ∧ finalMissing f cap m l < (H : Rat)
+  | [], m, h0, h1, _ => by simp [finalMissing]; exact ⟨h0, h1⟩
+  | cl :: rest, m, h0, h1, hH => by
+    simp only [finalMissing]
+    apply finalMissing_bounds f cap hf hcap H rest _ (stepMissing_nonneg f cap m cl hf hcap h0)
+    · unfold stepMissing; split
+      · rename_i ha
+        have hb := (newMissing_bounds f cap m cl hf hcap h0 ha).2
+        have hle : (cl.h : Rat) ≤ (H : Rat) := Rat.intCast_le_intCast.mpr (hH cl (by simp) ha)
+        grind
+      · exact h1
+    · intro c hc; exact hH c (by simp [hc])
+
+/-! ### area identity of the expansion loop -/
+
+theorem movableArea_cons (cl : Cell) (l : List Cell) :
+    movableArea (cl :: l) = (if cl.fixed then 0 else cl.w * cl.h) + movableArea l := by
+  unfold movableArea
+  simp only [List.filter_cons]
+  split <;> rename_i h
+  · simp at h; simp [h, cellArea]
+  · simp at h; simp [h]
+
+theorem movableArea_nil : movableArea [] = 0 := rfl
+
+/-- what the loop aims at: `h * fracW` for active cells, the old area for the other movable cells -/
+def fracArea (f cap : Rat) : List Cell → Rat
+  | [] => 0
+  | cl :: l => (if cl.fixed then 0 else if active cl then (cl.h : Rat) * fracW f cap cl
+                else ((cl.w * cl.h : Int) : Rat)) + fracArea f cap l
+
+theorem area_identity (f cap : Rat) : ∀ (l : List Cell) (m : Rat),
+    (movableArea (expandCells f cap m l) : Rat) + finalMissing f cap m l = m + fracArea f cap l
+  | [], m => by simp [expandCells, finalMissing, fracArea, movableArea_nil]; grind
+  | cl :: rest, m => by
+    have ih := area_identity f cap rest (stepMissing f cap m cl)
+    simp only [expandCells, finalMissing, fracArea, movableArea_cons, Rat.intCast_add]
+    unfold stepCell stepMissing at *
+    by_cases ha : active cl = true
+    · obtain ⟨hfx, _, _⟩ := (active_iff cl).mp ha
+      have hid := step_identity f cap m cl
+      simp only [ha, if_true, hfx, Bool.false_eq_true, if_false, Rat.intCast_mul] at ih ⊢
+      grind
+    · have ha' : active cl = false := by simpa using ha
+      simp only [ha', Bool.false_eq_true, if_false] at ih ⊢
+      by_cases hfx : cl.fixed = true
+      · simp only [hfx, if_true, Rat.intCast_zero] at ih ⊢
+        grind
+      · simp only [hfx] at ih ⊢
+        grind
+
+/-- the domain of the quantitative theorems: movable cells have non-negative sizes -/
+def NonnegSizes (l : List Cell) : Prop := ∀ cl ∈ l, cl.fixed = false → 0 ≤ cl.w ∧ 0 ≤ cl.h
+
+theorem inactive_area_zero (cl : Cell) (hfx : cl.fixed = false) (hw : 0 ≤ cl.w) (hh : 0 ≤ cl.h)
+    (ha : active cl = false) : cl.w * cl.h = 0 := by
+  have : ¬ (0 < cl.h ∧ 0 < cl.w) := by
+    intro h; have := (active_iff cl).mpr ⟨hfx, h⟩; simp [ha] at this
+  have : cl.h = 0 ∨ cl.w = 0 := by omega
+  rcases this with h | h <;> simp [h]
+
+theorem fracArea_le (f cap : Rat) (hf : 0 ≤ f) : ∀ (l : List Cell), NonnegSizes l →
+    fracArea f cap l ≤ f * (movableArea l : Rat)
+  | [], _ => by simp [fracArea, movableArea_nil]
+  | cl :: rest, hn => by
+    have ih := fracArea_le f cap hf rest (fun c hc => hn c (by simp [hc]))
+    simp only [fracArea, movableArea_cons, Rat.intCast_add]
+    by_cases hfx : cl.fixed = true
+    · simp only [hfx, if_true, Rat.intCast_zero]; grind
+    · have hfx' : cl.fixed = false := by simpa using hfx
+      obtain ⟨hw, hh⟩ := hn cl (by simp) hfx'
+      simp only [hfx', Bool.false_eq_true, if_false]
+      by_cases ha : active cl = true
+      · simp only [ha, if_true, Rat.intCast_mul]
+        have h1 : (cl.h : Rat) * fracW f cap cl ≤ (cl.h : Rat) * ((cl.w : Rat) * f) :=
+          Rat.mul_le_mul_of_nonneg_left (fracW_le f cap cl) (Rat.intCast_nonneg.mpr hh)
+        grind
+      · have ha' : active cl = false := by simpa using ha
+        have hz := inactive_area_zero cl hfx' hw hh ha'
+        simp only [ha', Bool.false_eq_true, if_false, hz, Rat.intCast_zero]
+        grind
+
+theorem fracArea_eq (f cap : Rat) : ∀ (l : List Cell), NonnegSizes l →
+    (∀ cl ∈ l, active cl = true → (cl.w : Rat) * f ≤ cap) → fracArea f cap l = f * (movableArea l : Rat)
+  | [], _, _ => by simp [fracArea, movableArea_nil]
+  | cl :: rest, hn, hc => by
+    have ih := fracArea_eq f cap rest (fun c h => hn c (by simp [h])) (fun c h => hc c (by simp [h]))
+    simp only [fracArea, movableArea_cons, Rat.intCast_add]
+    by_cases hfx : cl.fixed = true
+    · simp only [hfx, if_true, Rat.intCast_zero]; grind
+    · have hfx' : cl.fixed = false := by simpa using hfx
+      obtain ⟨hw, hh⟩ := hn cl (by simp) hfx'
+      simp only [hfx', Bool.false_eq_true, if_false]
+      by_cases ha : active cl = true
+      · have hcap := hc cl (by simp) ha
+        have hfr : fracW f cap cl = (cl.w : Rat) * f := by
+          unfold fracW; rw [if_neg (Rat.not_lt.mpr hcap)]
+        simp only [ha, if_true, Rat.intCast_mul, hfr]
+        grind
+      · have ha' : active cl = false := by simpa using ha
+        have hz := inactive_area_zero cl hfx' hw hh ha'
+        simp only [ha', Bool.false_eq_true, if_false, hz, Rat.intCast_zero]
+        grind
+
+/-! ### not narrower -/
+
+theorem stepCell_not_narrower (f cap m : Rat) (cl : Cell) (hf : 1 ≤ f) (hcap : 0 ≤ cap) (hm : 0 ≤ m)
+    (hw : (cl.w : Rat) ≤ cap) : cl.w ≤ (stepCell f cap m cl).w := by
+  unfold stepCell
+  split
+  · rename_i ha
+    obtain ⟨_, hh, hwpos⟩ := (active_iff cl).mp ha
+    have hf0 : (0 : Rat) ≤ f := Rat.le_trans (by decide) hf
+    have hk := carryCount_nonneg f cap m cl hf0 hcap hm ha
+    have hwq : (0 : Rat) < (cl.w : Rat) := Rat.intCast_pos.mpr hwpos
+    have hfr : (cl.w : Rat) ≤ fracW f cap cl := by
+      unfold fracW; split
+      · exact hw
+      · have := Rat.mul_le_mul_of_nonneg_left hf (Rat.le_of_lt hwq)
+        grind
+    have ht := le_truncRat cl.w (fracW f cap cl) (Rat.le_trans (Rat.le_of_lt hwq) hfr) hfr
+    simp only [newWidth]
+    omega
+  · exact Int.le_refl _
+
+theorem expandCells_not_narrower (f cap : Rat) (hf : 1 ≤ f) (hcap : 0 ≤ cap) :
+    ∀ (l : List Cell) (m : Rat) (i : Nat), 0 ≤ m → ((l.getD i default).w : Rat) ≤ cap →
+      (l.getD i default).w ≤ ((expandCells f cap m l).getD i default).w
+  | [], _, i, _, _ => by simp [expandCells]
+  | cl :: rest, m, 0, hm, hw => by
+    simp only [expandCells, List.getD_cons_zero] at hw ⊢
+    exact stepCell_not_narrower f cap m cl hf hcap hm hw
+  | cl :: rest, m, i + 1, hm, hw => by
+    simp only [expandCells, List.getD_cons_succ] at hw ⊢
+    exact expandCells_not_narrower f cap hf hcap rest _ i
+      (stepMissing_nonneg f cap m cl (Rat.le_trans (by decide) hf) hcap hm) hw
+
+/-! ### `expandCellsByFactor` -/
+
+theorem applyFactors_area_le : ∀ (l : List Cell) (es : List Rat), NonnegSizes l → (∀ e ∈ es, 0 ≤ e) →
+    l.length = es.length → (movableArea (applyFactors l es) : Rat) ≤ expandedArea l es
+  | [], [], _, _, _ => by simp [applyFactors, expandedArea, movableArea_nil]
+  | [], _ :: _, _, _, h => by simp at h
+  | _ :: _, [], _, _, h => by simp at h
+  | cl :: rest, e :: es, hn, he, hlen => by
+    have ih := applyFactors_area_le rest es (fun c h => hn c (by simp [h])) (fun x h => he x (by simp [h]))
+      (by simpa using hlen)
+    simp only [applyFactors, expandedArea, movableArea_cons, Rat.intCast_add]
+    by_cases hfx : cl.fixed = true
+    · simp only [hfx, if_true, Rat.intCast_zero]; grind
+    · have hfx' : cl.fixed = false := by simpa using hfx
+      obtain ⟨hw, hh⟩ := hn cl (by simp) hfx'
+      have he0 : 0 ≤ e := he e (by simp)
+      have hq : (0 : Rat) ≤ (cl.w : Rat) * e := Rat.mul_nonneg (Rat.intCast_nonneg.mpr hw) he0
+      have h1 := Rat.mul_le_mul_of_nonneg_right (truncRat_le _ hq) (Rat.intCast_nonneg.mpr hh)
+      simp only [hfx', Bool.false_eq_true, if_false, cellArea, Rat.intCast_mul]
+      grind
+
+theorem expandedArea_adjust (ρ : Rat) : ∀ (l : List Cell) (es : List Rat), l.length = es.length →
+    expandedArea l (es.map (adjust ρ)) = (movableArea l : Rat) + ρ * (expandedArea l es - (movableArea l : Rat))
+  | [], [], _ => by simp [expandedArea, movableArea_nil]; grind
+  | [], _ :: _, h => by simp at h
+  | _ :: _, [], h => by simp at h
+  | cl :: rest, e :: es, hlen => by
+    have ih := expandedArea_adjust ρ rest es (by simpa using hlen)
+    simp only [List.map_cons, expandedArea, movableArea_cons, Rat.intCast_add, ih]
+    by_cases hfx : cl.fixed = true
+    · simp only [hfx, if_true, Rat.intCast_zero]; grind
+    · have hfx' : cl.fixed = false := by simpa using hfx
+      simp only [hfx', Bool.false_eq_true, if_false, cellArea, Rat.intCast_mul, adjust]
+      grind
+
+theorem applyFactors_not_narrower : ∀ (l : List Cell) (es : List Rat) (i : Nat), (∀ e ∈ es, 1 ≤ e) →
+    0 ≤ (l.getD i default).w → (l.getD i default).w ≤ ((applyFactors l es).getD i default).w
+  | [], _, i, _, _ => by simp [applyFactors]
+  | _ :: _, [], i, _, _ => by simp only [applyFactors]; exact Int.le_refl _
+  | cl :: rest, e :: es, 0, he, hw => by
+    simp only [applyFactors, List.getD_cons_zero] at hw ⊢
+    split
+    · exact Int.le_refl _
+    · have he1 : 1 ≤ e := he e (by simp)
+      have hwq : (0 : Rat) ≤ (cl.w : Rat) := Rat.intCast_nonneg.mpr hw
+      have h1 := Rat.mul_le_mul_of_nonneg_left he1 hwq
+      have h2 : (cl.w : Rat) ≤ (cl.w : Rat) * e := by grind
+      exact le_truncRat cl.w _ (Rat.le_trans hwq h2) h2
+  | cl :: rest, e :: es, i + 1, he, hw => by
+    simp only [applyFactors, List.getD_cons_succ] at hw ⊢
+    exact applyFactors_not_narrower rest es i (fun x h => he x (by simp [h])) hw
+
+theorem rat_div_pos {a b : Rat} (ha : 0 < a) (hb : 0 < b) : 0 < a / b := by
+  rw [Rat.div_def]; exact Rat.mul_pos ha (Rat.inv_pos.mpr hb)
 
 end Expand
 end ColoVerif
